@@ -391,6 +391,16 @@ func prepare(sc scen, j *vlib.Job) *prepared {
 			out = nil
 			out = append(out, key3(render.ToTriangles(s, mk())))
 		}
+	case "octree-deep":
+		// a long thin bar at 260 and 520 cells (round 8): octrees of 10 and 11 levels, whose top levels a renderer might
+		// hand to goroutines of their own; the triangle sequence must not depend on the schedule
+		bar, _ := sdf.Box3D(v3.Vec{X: 10, Y: 0.1, Z: 0.1}, 0)
+		p.body = func() {
+			out = nil
+			vsync.SetNumCPU(sc.Workers)
+			out = append(out, key3s(render.ToTriangles(bar, render.NewMarchingCubesOctree(260))))
+			out = append(out, key3s(render.ToTriangles(bar, render.NewMarchingCubesOctree(520))))
+		}
 	case "octree-history", "reuse-octree", "reuse-uniform", "reuse-quadtree", "reuse-squares", "reuse-dc2d":
 		// histories of different models: sphere, box, sphere.  "octree-history" uses a fresh renderer value for
 		// every render (state kept by the package between renders); "reuse-*" passes ONE renderer value to all
@@ -450,6 +460,46 @@ func prepare(sc scen, j *vlib.Job) *prepared {
 					r3, r2 = mk3(), mk2()
 				}
 				out = append(out, one(w, r3, r2))
+			}
+		}
+	case "reuse-model-octree", "reuse-model-quadtree":
+		// ONE model value holding a cache (Cache2D) rendered at several resolutions in turn, each time by a fresh
+		// renderer: every output must equal the output of a fresh model rendered alone at that resolution (round 8: a
+		// cache keyed at reduced precision hands the second lattice the values of near-coincident points of the first)
+		mk2 := func() sdf.SDF2 {
+			// far enough from the origin for neighbouring lattice points of different renders to share a float32
+			if sc.Kind == "reuse-model-quadtree" {
+				return sdf.Cache2D(sdf.Transform2D(circle{3}, sdf.Translate2d(v2.Vec{X: 50000, Y: 30000})))
+			}
+			return sdf.Cache2D(sdf.Transform2D(circle{1}, sdf.Translate2d(v2.Vec{X: -20000.3, Y: 30000.2})))
+		}
+		res := []int{20, 32, 24, 20}
+		if sc.Kind == "reuse-model-quadtree" {
+			res = []int{100, 300, 70}
+		}
+		one := func(m2 sdf.SDF2, n int) string {
+			if sc.Kind == "reuse-model-octree" {
+				return key3(render.ToTriangles(sdf.Extrude3D(m2, 1), render.NewMarchingCubesOctree(n))) // bit-exact
+			}
+			ls := lattice.Collect2(m2, render.NewMarchingSquaresQuadtree(n))
+			h := sha256.New()
+			for _, l := range ls {
+				fmt.Fprint(h, *l)
+			}
+			return fmt.Sprintf("%d:%x", len(ls), h.Sum(nil)[:8])
+		}
+		var alone []string
+		for _, n := range res {
+			n := n
+			vsync.RunOnce(nil, false, func() { vsync.SetNumCPU(sc.Workers); alone = append(alone, one(mk2(), n)) })
+		}
+		p.indep = fmt.Sprint(alone)
+		p.body = func() {
+			out = nil
+			vsync.SetNumCPU(sc.Workers)
+			m := mk2()
+			for _, n := range res {
+				out = append(out, one(m, n))
 			}
 		}
 	case "stl-two", "stl-path-history", "svg-path-history":
@@ -760,6 +810,8 @@ func main() {
 		scen{Kind: "history", Lattice: L25, Workers: 2, Every: 0, Bound: 1},
 		scen{Kind: "octree", Workers: 1, Bound: -1}, scen{Kind: "svg", Workers: 1, Bound: -1},
 		scen{Kind: "octree-history", Workers: 1, Bound: -1}, scen{Kind: "reuse-octree", Workers: 1, Bound: -1}, scen{Kind: "reuse-uniform", Workers: 2, Bound: 1},
+		scen{Kind: "octree-deep", Workers: 2, Bound: 0, PoliciesOnly: true}, scen{Kind: "octree-deep", Workers: 4, Bound: 0, PoliciesOnly: true},
+		scen{Kind: "reuse-model-octree", Workers: 1, Bound: 0, PoliciesOnly: true}, scen{Kind: "reuse-model-quadtree", Workers: 1, Bound: 0, PoliciesOnly: true},
 		scen{Kind: "reuse-quadtree", Workers: 1, Bound: -1}, scen{Kind: "reuse-squares", Workers: 1, Bound: -1}, scen{Kind: "reuse-dc2d", Workers: 1, Bound: -1},
 		scen{Kind: "stl-two", Workers: 1, Bound: -1}, scen{Kind: "stl-path-history", Workers: 1, Bound: -1}, scen{Kind: "svg-path-history", Workers: 1, Bound: -1},
 		scen{Kind: "dxf-two", Workers: 1, Bound: -1}, scen{Kind: "dxf-history", Workers: 1, Bound: -1}, scen{Kind: "3mf-two", Workers: 1, Bound: -1},
@@ -769,6 +821,15 @@ func main() {
 	if c.Thorough() {
 		scens = append(scens, scen{Kind: "triangles", Lattice: "1x14x13 n=14 (layer 225: 3 batches)", Workers: 3, Every: 100, Bound: 2},
 			scen{Kind: "two", Lattice: T, Workers: 2, Every: 0, Bound: 2}, scen{Kind: "two", Lattice: L25, Workers: 1, Every: 0, Bound: 1}, scen{Kind: "stl", Lattice: L100, Workers: 3, Every: 37, Bound: 2})
+	}
+	if only := os.Getenv("VERIF_C09_ONLY"); only != "" { // debugging aid: restrict to the scenario kinds containing this text
+		var keep []scen
+		for _, sc := range scens {
+			if strings.Contains(sc.Kind, only) {
+				keep = append(keep, sc)
+			}
+		}
+		scens = keep
 	}
 	// split every scenario into shards of its schedule tree
 	const shards = 1
